@@ -625,9 +625,11 @@ func (h *httpServerHandler) handleGet(ctx context.Context, w http.ResponseWriter
 	// Wait for connection to close
 	<-connCtx.Done()
 
-	// Clean up connection
+	// Clean up connection: remove only this connection; a newer GET stream may already own the session.
 	h.getSSEConnectionsLock.Lock()
-	delete(h.getSSEConnections, session.GetID())
+	if current, ok := h.getSSEConnections[session.GetID()]; ok && current == conn {
+		delete(h.getSSEConnections, session.GetID())
+	}
 	h.getSSEConnectionsLock.Unlock()
 	h.logger.Infof("GET SSE connection closed, session ID: %s", session.GetID())
 }
